@@ -75,8 +75,10 @@ def gen(rng, tier):
                 truth.update(proto="h1", version="1.1", expect=[tags[0], tags[1]] + ([tags[2]] if kind == "plain_pipelined" else []))
             elif kind in ("h2c", "h2c_settings"):
                 st = b"" if kind == "h2c" else fb.settings({3: 100, 4: 65535 + rng.randrange(1000)})[9:]
-                opening = _h1_req(tags[0], extra=b"Connection: Upgrade, HTTP2-Settings\r\nUpgrade: h2c\r\nHTTP2-Settings: %s\r\n" %
+                # (header names repeated on several lines: every line is a client byte that has to make it across the switch)
+                opening = _h1_req(tags[0], extra=b"X-Dup: one\r\nCookie: a=1\r\nConnection: Upgrade, HTTP2-Settings\r\nUpgrade: h2c\r\nX-Dup: two\r\nHTTP2-Settings: %s\r\nCookie: b=2\r\n" %
                                   base64.urlsafe_b64encode(st).rstrip(b"="), absolute=rng.random() < 0.3)
+                truth["h2c_headers"] = [(b"x-dup", b"one"), (b"cookie", b"a=1"), (b"x-dup", b"two"), (b"cookie", b"b=2")]
                 trailing = client_preface(fb, {}) + _h2_req(fb, 3, tags[1], body)
                 reactor = {"kind": "h2", "credit": "auto", "skip_h1_101": True}
                 truth.update(proto="h2c", version="2", expect={tags[0]: 1, tags[1]: 3})
@@ -317,6 +319,12 @@ def run_one(case, tally):
             if t["proto"] == "h2c" and (rx.upgrade_head is None or not rx.upgrade_head.startswith(b"HTTP/1.1 101")):
                 findings.append({"clause": "answered-once", "sig": "C13.h2c/no-101", "backend": be,
                                  "detail": "h2c upgrade without body not answered 101: %r" % (rx.upgrade_head or ob0.outbytes[:60])})
+            if t.get("h2c_headers"):
+                sc1 = [e[4]["scope"] for e in ob0.app_events(kind="start") if e[4]["scope"].get("path") == "/t%d" % min(t["expect"])]
+                got_h = [(bytes(a), bytes(b)) for a, b in (sc1[0].get("headers") or []) if bytes(a) in (b"x-dup", b"cookie")] if sc1 else None
+                if got_h != t["h2c_headers"]:
+                    findings.append({"clause": "answered-once", "sig": "C13.lost-or-duplicated/%s/request-headers" % case["family"], "backend": be,
+                                     "detail": "the upgraded request reached its application with the header lines %r, the client sent %r" % (got_h, t["h2c_headers"])})
             for tag, sid in t["expect"].items():
                 s = rx.streams.get(sid)
                 if s is None or s.status != 200 or bytes(s.data) != b"body-%d" % tag or s.ended != 1:
